@@ -55,7 +55,7 @@ PROPS["C02"] = {
             P("data/builder", "VerifBuilderSlice", must_reach=("end", "too-deep")),
             P("data/builder", "VerifLogTwo", must_reach=("end", "rejected")),
             P("hamt", "VerifCheckLogTwo"), P("hamt", "VerifMkmask"),
-            P("hamt", "VerifBitfieldLaws", nb=1), P("hamt", "VerifBitfieldLaws", nb=2),
+            P("hamt", "VerifBitfieldLaws", nb=1), P("hamt", "VerifBitfieldLaws", nb=2), P("hamt", "VerifBitfieldLaws", nb=8),
             P("hamt", "VerifBitfieldSetBit", nb=2),
             P("hamt", "VerifMatchKey"), P("hamt", "VerifIsValueLink"), P("hamt", "VerifTransformName"),
             P("data/builder", "VerifFormatLinkName"),
@@ -69,7 +69,7 @@ PROPS["C02"] = {
             P("hamt", "VerifHashBitsNext", must_reach=("end", "too-deep")),
             P("hamt", "VerifHashBitsStep", must_reach=("end", "too-deep"), allwidths=1),
             P("data/builder", "VerifBuilderSlice", must_reach=("end", "too-deep")),
-            P("hamt", "VerifBitfieldLaws", nb=4), P("hamt", "VerifBitfieldLaws", nb=8),
+            P("hamt", "VerifBitfieldLaws", nb=2), P("hamt", "VerifBitfieldLaws", nb=8), P("hamt", "VerifBitfieldLaws", nb=32),
             P("hamt", "VerifBitfieldSetBit", nb=16),
             P("hamt", "VerifMatchKey"), P("hamt", "VerifIsValueLink"), P("hamt", "VerifTransformName"),
             P("data/builder", "VerifFormatLinkName"), P("data/builder", "VerifEstimateDirSize"),
@@ -86,7 +86,7 @@ PROPS["C02"] = {
     },
     "bounds": {
         "quick": "kernels over ALL values: 64-bit hashes x fanout 8..1024 x depth 0..21 (reader Next and builder Slice against one bit-slice spec), bitfields of 1-2 bytes x every index, link-name prefix laws for pad 1..3 and names/keys of 0..3 arbitrary bytes, estimateDirSize over link-kind mixes, auto-shard threshold at estimate threshold-1/0/+1; pipeline: 2 entries + 1 probe (unrelated / suffix / extension of an entry name), fanout 8, depth<=2, symbolic 64-bit name hashes with buckets {0,1,7}, symbolic sizes < 128; plain directory 0..3 entries; hand-built non-canonical HAMTs (4 shapes, 3 levels)",
-        "thorough": "all widths 1..63 x all offsets in the inductive hashBits step; bitfields 4, 8, 16 bytes; pipeline with 3 entries, fanout 16, depth 3, unrestricted buckets; two names colliding for every number of levels up to the 64-bit limit incl. the too-deep error",
+        "thorough": "all widths 1..63 x all offsets in the inductive hashBits step; bitfields of 8 and 32 bytes (fanout 64, 256; per-byte popcount taken as a primitive on both sides, index arithmetic checked); pipeline with 3 entries, fanout 16, depth 3, unrestricted buckets; two names colliding for every number of levels up to the 64-bit limit incl. the too-deep error",
     },
     "assumptions": ["symbolic name hash: murmur3.New64 is replaced on builder and reader side by one table name->8 symbolic bytes (any function from names to 64 bits); native replays search real names whose murmur3 hash matches the witness prefix",
                     "the induction over shard depth joining the kernels and the bounded pipeline is stated, not mechanised"],
